@@ -230,11 +230,13 @@ theorem exception_wire (seq : Int) (dumped : Val)
 
 /-- **reading**: `_dispatch` takes a published message for what it is … -/
 theorem dispatch_reads_published (seq : Int) (handler : Nat) (b : Boxed) (d : Val) :
-    Code.dispatch (Msg.request seq handler b).toVal = .ok (.request seq (.int handler) b.toVal)
-    ∧ Code.dispatch (Msg.reply seq b).toVal = .ok (.reply seq b.toVal)
-    ∧ Code.dispatch (Msg.exception seq d).toVal = .ok (.exception seq d) := by
-  refine ⟨?_, ?_, ?_⟩ <;>
-    simp [Code.dispatch, Msg.toVal, c_msgRequest, c_msgReply, c_msgException, MSG_REQUEST, MSG_REPLY, MSG_EXCEPTION]
+    Code.dispatch (Msg.request seq handler b).toVal = .ok (.request (.int seq) (.tuple [.int handler, b.toVal]))
+    ∧ Code.requestParts (.tuple [.int handler, b.toVal]) = .ok (.int handler, b.toVal)
+    ∧ Code.dispatch (Msg.reply seq b).toVal = .ok (.reply (.int seq) b.toVal)
+    ∧ Code.dispatch (Msg.exception seq d).toVal = .ok (.exception (.int seq) d) := by
+  refine ⟨?_, rfl, ?_, ?_⟩ <;>
+    simp [Code.dispatch, Code.unpack3, Code.numEq, Msg.toVal, c_msgRequest, c_msgReply, c_msgException,
+      MSG_REQUEST, MSG_REPLY, MSG_EXCEPTION]
 
 /-- … and `_unbox` takes each published label for what it is -/
 theorem unbox_reads_published (v p : Val) (xs : List Boxed) :
@@ -245,6 +247,85 @@ theorem unbox_reads_published (v p : Val) (xs : List Boxed) :
   refine ⟨?_, ?_, ?_, ?_⟩ <;>
     simp [Code.unboxNode, Boxed.toVal, c_labelValue, c_labelTuple, c_labelLocalRef, c_labelRemoteRef,
       LABEL_VALUE, LABEL_TUPLE, LABEL_LOCAL_REF, LABEL_REMOTE_REF]
+
+/-! ### (6b) below `(kind, seq, args)`: per-handler argument layouts, tied to the live code by generated facts
+
+`Gen/Consts.lean` carries the `_handle_*` signatures (inspect.signature) and every HANDLE_* call site of the package
+(AST); `Gen/Recorded.lean` carries what the live code DID on fixed probes when the constants were regenerated: the
+requests its call sites emitted (decoded by the independent reference decoder), `_box` on five objects, the
+responses of `_dispatch_request`, the classification by `_dispatch`.  The theorems below compare those facts with the
+published tables and with the hand-written `Code.*` model, so `Code.*` is tied to the code by proof obligations. -/
+
+/-- every handler takes the published number of required and optional arguments -/
+theorem handler_arity_published : Gen.Consts.handlerArity = handlerArity := by decide
+
+/-- every call site of the package that issues a HANDLE_* request passes a number of arguments its handler's
+published layout admits -/
+theorem call_sites_fit_published :
+    Gen.Consts.callSites.all (fun site =>
+      match handlerTable.lookup site.1 with
+      | none => false
+      | some h => match handlerArity.lookup h with
+        | none => false
+        | some ar => decide (ar.1 ≤ site.2) && decide (site.2 ≤ ar.1 + ar.2)) = true := by decide
+
+/-- all probes ran (none of the live operations raised against a conforming responder) -/
+theorem recorded_probes_ran : Gen.Recorded.probeErrors = [] := by decide
+
+/-- **each operation issues its published handler(s)**: getattr → 4, setattr → 6, call → 7, a special method →
+callattr 8, == → cmp 11, leaving a `with` block → ctxexit 19, isinstance → 20, finalisation → del 15, … -/
+theorem operations_use_published_handlers :
+    Gen.Recorded.callSiteRequests.map (fun p => (p.1, requestHandlers p.2))
+      = operationHandlers.map (fun p => (p.1, p.2.map some)) := by decide +kernel
+
+/-- **every request the live call sites emitted has the published argument layout**: arities, names as text,
+positional arguments as a tuple, keyword arguments as a tuple of `(name, value)` pairs, id_packs as
+`(name, class id, instance id)`, counts as integers -/
+theorem recorded_requests_conform :
+    Gen.Recorded.callSiteRequests.all (fun p => p.2.all conformingMessage) = true := by decide +kernel
+
+/-- `Connection._box` did on the five probe objects what the model `Code.box` says -/
+theorem recorded_box_matches_model :
+    (Gen.Recorded.boxed.zip boxProbes).all (fun p => p.1.1 == p.2.1 && Val.beq p.1.2 (Code.box p.2.2)) = true
+    ∧ Gen.Recorded.boxed.length = boxProbes.length := by decide +kernel
+
+/-- the requests of three live call sites are exactly what the model of `_async_request` builds: getattr, a call
+with keyword arguments (a tuple of pairs, by value), a call passing an object by reference -/
+theorem recorded_requests_match_model :
+    (Gen.Recorded.callSiteRequests.lookup "getattr").map (fun vs => vs.map (Val.beq
+        (Code.requestVal 3 4 (.tup [.ownProxy probeP, .plain (.str [97, 116, 116, 114])])))) = some [true]
+    ∧ (Gen.Recorded.callSiteRequests.lookup "call-kw").map (fun vs => vs.map (Val.beq
+        (Code.requestVal 7 7 (.tup [.ownProxy probeP, .plain (.tuple [.int 3]),
+          .plain (.tuple [.tuple [.str [122], .none], .tuple [.str [121], .tuple [.int 7, .str [107]]]])])))) = some [true]
+    ∧ (Gen.Recorded.callSiteRequests.lookup "call-with-object").map (fun vs => vs.map (Val.beq
+        (Code.requestVal 25 7 (.tup [.ownProxy probeP,
+          .tup [.object probeObj, .tup [.plain (.int 1), .object probeObj]], .plain (.tuple [])])))) = some [true] := by
+  decide +kernel
+
+/-- **what `_dispatch_request` sent back** on seven published requests (fed in non-shortest encodings): replies for
+ping / getroot / a keyword-argument call, `MSG_EXCEPTION` with vinegar's tuple
+`((module, name), args, ((attr, value)…), traceback text)` for a built-in, a custom and an uncallable-target
+error, and the marker `EXC_STOP_ITERATION`; each a single published message with the request's sequence number -/
+theorem recorded_responses_published :
+    Gen.Recorded.served.map (fun e => (answeredWith 2 e, answeredWith 3 e))
+      = [(true, false), (true, false), (false, true), (false, true), (false, true), (true, false), (false, true)]
+    ∧ (Gen.Recorded.served.map (fun e => e.2.map (fun r =>
+          Val.beq r (Code.replyVal 100 (.plain (.tuple [.str [120], .float 0x3ff8000000000000])))
+          || Val.beq r (Code.replyVal 101 (.object probeSvc))
+          || Val.beq r (Code.exceptionVal 104 Code.dumpedStopIteration)
+          || Val.beq r (Code.replyVal 105 (.plain (.tuple [.int 1, .int 2, .int 3])))))).flatten
+        = [true, true, false, false, true, true, false] := by decide +kernel
+
+/-- **`_dispatch` classified nineteen payloads as the model does**: integer, bool, float and complex message
+kinds (Python `==`), a non-integer sequence number, unknown kinds, wrong arities, a non-iterable, a byte string -/
+theorem recorded_dispatch_matches_model :
+    Gen.Recorded.classified.all (fun p => Code.dispatchOutcome p.1 == p.2) = true
+    ∧ Gen.Recorded.classified.length = 19 := by decide +kernel
+
+/-- the layout tables are usable: every handler number has exactly one layout -/
+theorem handler_args_total :
+    handlerArgs.map (·.1) = handlerTable.map (·.2) ∧ (replyShape.map (·.1)).all (fun h => (handlerArgs.lookup h).isSome) = true := by
+  decide
 
 /-! ### (3), (4) the grammar: every legal form is accepted and means the same; `dump` emits a shortest one -/
 
@@ -295,7 +376,10 @@ example : sampleRequest.wire = .ok
     [0x12, 0x51, 0x57, 0x11, 0x54, 0x11, 0x52, 0x11, 0x11, 0x53, 0x12, 0x08, 0x0a, 0x61, 0x16, 0x06,
      0x31, 0x34, 0x30, 0x30, 0x30, 0x31, 0x16, 0x06, 0x31, 0x34, 0x30, 0x30, 0x30, 0x32, 0x11, 0x51,
      0x08, 0x0b, 0x61, 0x6e] := by decide +kernel
-example : Msg.ofVal? sampleRequest.toVal = some sampleRequest → True := fun _ => trivial
+/-- a receiver reading the sample request back finds a getattr request whose arguments fit the published layout -/
+example : (Msg.ofVal? sampleRequest.toVal).map Msg.kind = some "request"
+    ∧ (Msg.ofVal? sampleRequest.toVal).map Msg.conforms = some true ∧ sampleRequest.conforms = true := by
+  decide +kernel
 /-- a 3001-byte packet is compressed, a 3000-byte packet is not -/
 example : compresses true (List.replicate 3001 0) = true ∧ compresses true (List.replicate 3000 0) = false
     ∧ compresses false (List.replicate 3001 0) = false := by decide +kernel
